@@ -83,7 +83,7 @@ def run(rep):
         # specification machines on their classes (where C06 is proved)
         sc, bc, cc = matcher.machine_corpus(rep, m, corp.classes, 30 if quick else 200, 12 if quick else 20, rep.seed)
         if not quick:
-            ec, eb, ecc = matcher.exhaustive_machine_corpus(m, corp.classes, 4, rep.seed)
+            ec, eb, ecc = matcher.exhaustive_machine_corpus(m, corp.classes, 5, rep.seed)
             sc, bc, cc = sc + ec, bc + eb, cc + ecc
             rep.coverage['exhaustive_machine_histories'] = len(ec) + len(eb) + len(ecc)
         from . import impl as I
